@@ -134,7 +134,7 @@ def _allclose(a, b):
 # --------------------------------------------------------------------------
 
 def hz2cents(freq_hz, base_frequency=10.0):
-    """"Convert an array of frequency values in Hz to cents.  0 values are left
+    """Documented: "Convert an array of frequency values in Hz to cents.  0 values are left
     in place."  cents = 1200 * log2(|f| / base_frequency)."""
     out = []
     base = float(base_frequency)
@@ -147,7 +147,7 @@ def hz2cents(freq_hz, base_frequency=10.0):
 
 
 def freq_to_voicing(frequencies, voicing=None):
-    """"frames with frequency <= 0.0 are considered unvoiced, frames with
+    """Documented: "frames with frequency <= 0.0 are considered unvoiced, frames with
     frequency > 0.0 voiced.  If specified, voicing is used as the voicing array,
     but frequencies with value 0 are forced to have 0 voicing."  Returns the
     magnitudes ("Array of frequencies, all >= 0") and the voicing.  Pure: the
@@ -169,7 +169,7 @@ def freq_to_voicing(frequencies, voicing=None):
 # --------------------------------------------------------------------------
 
 def constant_hop_timebase(hop, end_time):
-    """"Generate a time series from 0 to end_time with times spaced hop apart";
+    """Documented: "Generate a time series from 0 to end_time with times spaced hop apart";
     "Time series will span [0, end_time]"; the end time and the generated times
     are rounded to 10 decimals ("to avoid float problems")."""
     h = _fr(hop)
@@ -195,7 +195,7 @@ def constant_hop_timebase(hop, end_time):
 
 
 def resample_melody_series(times, frequencies, voicing, times_new, kind="linear"):
-    """"Resamples frequency and voicing time series to a new timescale.
+    """Documented: "Resamples frequency and voicing time series to a new timescale.
     Maintains any zero ("unvoiced") values in frequencies.  If times and
     times_new are equivalent, no resampling will be performed."
 
@@ -313,7 +313,7 @@ def to_cent_voicing(
     hop=None,
     kind="linear",
 ):
-    """"Convert reference and estimated time/frequency (Hz) annotations to
+    """Documented: "Convert reference and estimated time/frequency (Hz) annotations to
     sampled frequency (cent)/voicing arrays."  Returns
     ``((ref_voicing, ref_cent, est_voicing, est_cent), margin)``.
 
@@ -422,7 +422,7 @@ def _check_all(ref_voicing, ref_cent, est_voicing, est_cent):
 
 
 def voicing_recall(ref_voicing, est_voicing):
-    """"Voicing recall rate, the fraction of voiced frames in ref indicated as
+    """Documented: "Voicing recall rate, the fraction of voiced frames in ref indicated as
     voiced in est".  Empty input -> 0; no voiced reference frame -> 1.
     Generalised: sum of est_voicing over the frames with ref_voicing > 0,
     divided by the number of such frames."""
@@ -439,7 +439,7 @@ def voicing_recall(ref_voicing, est_voicing):
 
 
 def voicing_false_alarm(ref_voicing, est_voicing):
-    """"Voicing false alarm rate, the fraction of unvoiced frames in ref
+    """Documented: "Voicing false alarm rate, the fraction of unvoiced frames in ref
     indicated as voiced in est".  Empty input -> 0; no unvoiced reference frame
     -> 0."""
     rv, ev = _floats(ref_voicing), _floats(est_voicing)
@@ -513,7 +513,7 @@ def raw_chroma_accuracy(ref_voicing, ref_cent, est_voicing, est_cent, cent_toler
 
 
 def overall_accuracy(ref_voicing, ref_cent, est_voicing, est_cent, cent_tolerance=50):
-    """"Overall accuracy, the total fraction of correctly estimated frames".
+    """Documented: "Overall accuracy, the total fraction of correctly estimated frames".
 
     Generalised form (Bittner & Bosch): with b = [ref_voicing > 0],
     ( (sum b / sum ref_voicing) * sum_{pitch correct} ref_voicing*est_voicing
